@@ -369,3 +369,31 @@ Definition writes (d : dim) (w : wr) : bool :=
 (* the last write to coordinate array d in a trace *)
 Definition last_write (d : dim) (t : list wr) : option wr :=
   fold_left (fun acc w => if writes d w then Some w else acc) t None.
+
+(* ------------------------------------------------------------------ single-axis runs: run(true,false), run(false,true)
+   The projections (IncSolver solves) of a trace in program order - exactly what a constraint-free probe compound constraint
+   observes through CompoundConstraint::updatePosition(dim), which moveTo :1095 and applyForcesAndConstraints :1164 each call
+   once after their solve; the harness compares this list with the compiled run() for every flag combination.             *)
+Definition projs (t : list wr) : list dim :=
+  flat_map (fun w => match w with WProj d => [d] | _ => [] end) t.
+Fixpoint rep_tr {A : Type} (k : nat) (l : list A) : list A :=
+  match k with O => [] | S k' => l ++ rep_tr k' l end.
+(* the closed form of the projections of one do-while iteration: every descent evaluation first projects BOTH axes
+   (setPosition), then solves once more for each axis that is laid out; the iteration ends with a projection of BOTH axes *)
+Definition iteration_projs (rk xAxis yAxis : bool) : list dim :=
+  rep_tr (if rk then 4%nat else 1%nat) ([DX; DY] ++ (if xAxis then [DX] else []) ++ (if yAxis then [DY] else [])) ++ [DX; DY].
+
+(* the VARIANT "only the axes that are being laid out are moved" (not the code: a plausible-looking optimisation of
+   computeDescentVectorOnBothAxes :300 and run :361 that replaces setPosition by if(xAxis) moveTo(X); if(yAxis) moveTo(Y)) *)
+Definition setPosition_axes (xAxis yAxis : bool) : list wr :=
+  (if xAxis then moveTo DX else []) ++ (if yAxis then moveTo DY else []).
+Definition descentBoth_axes (xAxis yAxis : bool) : list wr :=
+  setPosition_axes xAxis yAxis ++ (if xAxis then applyForces DX else []) ++ (if yAxis then applyForces DY else []).
+Definition iteration_axes (rk xAxis yAxis : bool) : list wr :=
+  (if rk then descentBoth_axes xAxis yAxis ++ descentBoth_axes xAxis yAxis ++ descentBoth_axes xAxis yAxis ++ descentBoth_axes xAxis yAxis
+   else descentBoth_axes xAxis yAxis) ++ setPosition_axes xAxis yAxis.
+Fixpoint run_trace_axes (rk xAxis yAxis : bool) (iters : nat) : list wr :=
+  match iters with
+  | O => []
+  | S k => run_trace_axes rk xAxis yAxis k ++ iteration_axes rk xAxis yAxis
+  end.
